@@ -23,6 +23,7 @@ TRUSTED = {
     "strip": "bytes.lstrip/rstrip of one byte value: result is the suffix/prefix after removing the maximal run",
     "brev": "b[::-1]: length, involution, element positions",
     "brep": "bytes([c]) * k: length max(k,0), every element c; b == bytes([c])*(len(b)-len(b.lstrip(c))) + b.lstrip(c); (bytes([c])*z + e).lstrip(c) == e when e is empty or e[0] != c",
+    "bitfield": "(derived, integer arithmetic) E % 2**(a+w) == E % 2**a + ((E // 2**a) % 2**w) * 2**a",
     "byte-range": "every element of a bytes object is in range(256)",
 }
 
@@ -210,6 +211,11 @@ class Axioms:
                     if name == "tobe":
                         digs = list(reversed(digs))
                     out.append(z3.Implies(ok, t == z3.Concat(*digs)))
+                # the least significant byte
+                if name == "tobe":
+                    out.append(z3.Implies(z3.And(ok, n >= 1), t[n - 1] == x % 256))
+                else:
+                    out.append(z3.Implies(z3.And(ok, n >= 1), t[0] == x % 256))
                 # leading / trailing byte facts used by DER and scriptnum minimality
                 if name == "tobe":
                     out.append(z3.Implies(z3.And(ok, n >= 1),
@@ -233,6 +239,9 @@ class Axioms:
                     for K in (1, 2, 4, 8, 16, 31, 32, 33, 40, 63, 64, 128, 255, 256, 264, 512):
                         out.append(z3.Implies(e >= K, t >= bv ** K))
                         out.append(z3.Implies(z3.And(e >= 0, e <= K), t <= bv ** K))
+                    if bv in (2, 256):
+                        for K in range(3, 41):
+                            out.append(z3.Implies(e == K, t == bv ** K))
                 # monotonicity against the other powers of the same base seen so far
                 key = str(b)
                 others = self.pows.setdefault(key, [])
@@ -338,6 +347,17 @@ class Axioms:
                 b = ch[0]
                 out.append(z3.Length(t) == z3.Length(b))
                 out.append(sym.F_rev(t) == b)
+        elif k == z3.Z3_OP_MOD and len(ch) == 2 and z3.is_int_value(ch[1]) and z3.is_app_of(ch[0], z3.Z3_OP_IDIV):
+            # bit field (E div 2**a) mod 2**w: the fields of E tile it.  An identity of integer arithmetic
+            # (not an assumption), instantiated to spare the solver the case analysis:
+            #     E mod 2**(a+w) == E mod 2**a + ((E div 2**a) mod 2**w) * 2**a
+            e_, d_ = ch[0].children()
+            m_ = ch[1].as_long()
+            if z3.is_int_value(d_) and d_.as_long() > 0 and m_ > 0:
+                a_ = d_.as_long()
+                if a_ & (a_ - 1) == 0 and m_ & (m_ - 1) == 0:
+                    self.used.add("bitfield")
+                    out.append(e_ % lit(a_ * m_) == e_ % lit(a_) + t * lit(a_))
         elif k == z3.Z3_OP_SEQ_NTH and t.sort() == IntS:
             # element of a bytes-like sequence: in range when index in range
             # (only emitted for sequences registered as bytes by the engine)
